@@ -161,3 +161,44 @@ func reusedReceivers(c *vf.Ctx, V [][16]byte) {
 	_ = total
 	c.Sample("reused-receiver-history", map[string]any{"ops": "parse(ff…ff); parse(x) on one object vs parse(x) on a fresh one", "parsers": len(ps), "x_values": len(X)})
 }
+
+// trailingBytes: Unmarshal accepts a buffer that is longer than 16 bytes (it reports 16 consumed); what
+// it decodes must then be the FIRST 16 bytes, whatever follows them.
+func trailingBytes(c *vf.Ctx, V [][16]byte) {
+	sfx := [][]byte{{0x00}, {0xFF, 0xFF, 0xFF, 0xFF, 0xFF, 0xFF, 0xFF}, {0x11, 0x22, 0x33, 0x44, 0x55, 0x66, 0x77, 0x88, 0x99, 0xAA, 0xBB, 0xCC, 0xDD, 0xEE, 0xF0, 0x0F}}
+	type un struct {
+		name string
+		ver  byte
+		f    func(b []byte) (int, error, []byte)
+	}
+	us := []un{
+		{"uuid.UUID", 0, func(b []byte) (int, error, []byte) { var u uuid.UUID; n, e := u.Unmarshal(b); m, _ := u.Marshal(); return n, e, m }},
+		{"UUIDv1", 1, func(b []byte) (int, error, []byte) { var u uuid_v1.UUIDv1; n, e := u.Unmarshal(b); m, _ := u.Marshal(); return n, e, m }},
+		{"UUIDv2", 2, func(b []byte) (int, error, []byte) { var u uuid_v2.UUIDv2; n, e := u.Unmarshal(b); m, _ := u.Marshal(); return n, e, m }},
+		{"UUIDv8", 8, func(b []byte) (int, error, []byte) { var u uuid_v8.UUIDv8; n, e := u.Unmarshal(b); m, _ := u.Marshal(); return n, e, m }},
+	}
+	l := &local{c: c, n: map[string]int64{}}
+	defer l.flush()
+	for i, v0 := range V {
+		if i > 300 && i%29 != 0 {
+			continue
+		}
+		for _, u := range us {
+			v := v0
+			if u.ver != 0 {
+				v = forceVersion(v, u.ver)
+			}
+			for _, sx := range sfx {
+				in := append(append([]byte{}, v[:]...), sx...)
+				var n int
+				var err error
+				var m []byte
+				pan, msg, where := vf.Try(func() { n, err, m = u.f(in) })
+				// a decoder may refuse over-long input; if it accepts, it must have read the first 16 bytes
+				l.Check("C13/trailing-bytes/"+u.name+".Unmarshal/accepted-input-decodes-its-first-16-bytes", !pan && (err != nil || (n == 16 && bytes.Equal(m, v[:]))), func() string {
+					return fmt.Sprintf("%s.Unmarshal(%x || %x) = (%d,%v), Marshal gives %x (panic=%v %s %s)", u.name, v, sx, n, err, m, pan, msg, where)
+				})
+			}
+		}
+	}
+}
